@@ -29,6 +29,12 @@ type Options struct {
 	// not have: U+017F with s/S, U+212A with k/K, U+212B with U+00E5/U+00C5,
 	// U+1E9E with U+00DF.
 	GoFold bool
+	// CodePoints models an engine that walks code points (UTF-8) instead of
+	// code units: an atom that matches a high surrogate followed by a low
+	// surrogate consumes both, no match starts between the two, and a pattern
+	// character that is itself a surrogate code unit (\uD83D) matches nothing.
+	// (A supplementary character written literally in the pattern is not modelled.)
+	CodePoints bool
 }
 
 func (o Options) lineTerm(c uint16) bool {
@@ -136,6 +142,9 @@ func (re *Regexp) canon(ch uint16) uint16 {
 func (re *Regexp) MatchAt(input []uint16, index int) (caps []int, ok bool, err error) {
 	re.input = input
 	re.steps = 0
+	if re.Opts.CodePoints && index > 0 && index < len(input) && input[index-1]&0xFC00 == 0xD800 && input[index]&0xFC00 == 0xDC00 {
+		return nil, false, nil
+	}
 	defer func() {
 		if r := recover(); r != nil {
 			if a, is := r.(abort); is {
@@ -289,6 +298,9 @@ func (re *Regexp) compile(n *Node) matcher {
 		}
 	case KChar:
 		pc := n.Ch
+		if re.Opts.CodePoints && pc&0xF800 == 0xD800 {
+			return func(state, cont) (state, bool) { re.step(); return state{}, false }
+		}
 		// one-element CharSet: exists a in {pc} with Canonicalize(a) == Canonicalize(ch)
 		return re.charSetMatcher(func(ch uint16) bool { return re.canon(ch) == re.canon(pc) }, false)
 	case KDot:
@@ -339,6 +351,9 @@ func (re *Regexp) charSetMatcher(member func(ch uint16) bool, invert bool) match
 		}
 		if member(re.input[e]) == invert {
 			return state{}, false
+		}
+		if re.Opts.CodePoints && re.input[e]&0xFC00 == 0xD800 && e+1 < len(re.input) && re.input[e+1]&0xFC00 == 0xDC00 {
+			return c(state{end: e + 2, caps: x.caps})
 		}
 		return c(state{end: e + 1, caps: x.caps})
 	}
